@@ -286,6 +286,21 @@ func (x *Exec) constVal(c *ssa.Const) Value {
 	panic(fmt.Sprintf("const: unsupported %v : %v", c, c.Type()))
 }
 
+// fnPkg returns the package a function belongs to (instantiations of generics and wrappers have Pkg == nil).
+func fnPkg(fn *ssa.Function) *ssa.Package {
+	for fn != nil {
+		if fn.Pkg != nil {
+			return fn.Pkg
+		}
+		if o := fn.Origin(); o != nil && o != fn {
+			fn = o
+			continue
+		}
+		fn = fn.Parent()
+	}
+	return nil
+}
+
 func (x *Exec) inModule(p *ssa.Package) bool {
 	return p != nil && strings.HasPrefix(p.Pkg.Path(), x.eng.modPath)
 }
@@ -328,7 +343,7 @@ func (x *Exec) call(fn *ssa.Function, args []Value, bind []Value) Value {
 	if h := x.eng.intrinsic(fn); h != nil {
 		return h(x, fn, args)
 	}
-	if x.lenient && !x.inModule(fn.Pkg) {
+	if x.lenient && !x.inModule(fnPkg(fn)) {
 		x.extSeen[fn.String()]++
 		return zeroResult(x, fn.Signature)
 	}
